@@ -719,11 +719,12 @@ def truth(c):
     return E.ENG.branch(c)
 
 
-def mk_event(x, us, dur_us, data, id=None, aligned=True, off=0):
-    """a real aw_core Event whose instant / duration are the given microsecond terms"""
+def mk_event(x, us, dur_us, data, id=None, aligned=True, off=0, dur_aligned=None):
+    """a real aw_core Event whose instant / duration are the given microsecond terms (aligned: known to be
+    whole milliseconds by construction; dur_aligned overrides it for the duration)"""
     from aw_core.models import Event
 
-    return Event(id=id, timestamp=x.dt_us(us, off, aligned), duration=x.td_us(dur_us, aligned), data=data)
+    return Event(id=id, timestamp=x.dt_us(us, off, aligned), duration=x.td_us(dur_us, aligned if dur_aligned is None else dur_aligned), data=data)
 
 
 def ev_start(e):
